@@ -8,6 +8,18 @@ EXTENDS Planner, Json
 Emit == (Len(regs) = N /\ outcome[1] = "ok") =>
           PrintT(<<"REPLAY", ToJson([regs |-> regs, ids |-> ids, epoch |-> epoch])>>)
 
+\* Planner refines the abstract planner Plan (every step of the algorithm is an admissible step)
+AbsPlan == INSTANCE Plan WITH lay <- ids
+PlanRefinement == AbsPlan!Spec     \* (direct form: TLC has to search the witnesses of Plan!Next - slow)
+\* The same refinement with the witnesses supplied: every successful registration of the algorithm is a
+\* Plan!Register step at the place the algorithm chose (append-shaped, admissible); every other step
+\* leaves the plan alone.
+PlanStep == [][ IF Len(regs') = Len(regs) + 1
+                THEN LET id == Len(regs')  p == PosFun(ids')[id] IN
+                     /\ PlaceOK(ids, p) /\ ids' = Placed1(ids, p, id)
+                     /\ AbsPlan!Admissible(regs', ids', id)
+                ELSE regs' = regs /\ ids' = ids ]_vars
+
 \* state constraint for simulation configs
 Bound == Len(regs) <= N
 =============================================================================
